@@ -14,12 +14,10 @@ From Miller Require Import Base.Bytes.
 Open Scope N_scope.
 
 Definition known_bad : list (bytes * N) := [
-  (* KNOWN FINDING bif-internal-error-absent-or-funct-into-collection:
-     absent / function values stored into collections end the process with an internal coding error *)
-  (B "concat", 73); (B "append", 73); (B "fmtnum", 73); (B "fmtifnum", 73);
-  (* KNOWN FINDING bif-internal-error-stats-non-numeric-element:
-     statistics over collections with non-numeric elements end the process with an internal coding error *)
-  (B "kurtosis", 73); (B "meaneb", 73); (B "skewness", 73); (B "stddev", 73); (B "variance", 73);
+  (* No finding is excepted any more.  The two families listed here until round 2 were repaired in the repository:
+     bif-internal-error-absent-or-funct-into-collection (concat/append/fmtnum/fmtifnum: an absent or function value inside a
+     collection is written by its name, 180145cf9) and bif-internal-error-stats-non-numeric-element (kurtosis/meaneb/skewness/
+     stddev/variance return an error value, a9c3aa6fe): a regression breaks C18_bif_no_panic_or_hang_partial again. *)
   (* not a finding, a resource bound of the walk: leftpad/rightpad with target length 2^63-1 would build a string of that
      length; those tuples (second argument = imax) are not evaluated and carry code K *)
   (B "leftpad", 75); (B "rightpad", 75)
